@@ -383,6 +383,18 @@ class BlockSelection(Scenario):
                         cx.prove(Not(qual[q]), f"cell {q} blanked only outside the selection", "copy data")
                     else:
                         cx.prove(And(qual[q], eq(vals[q], D[q])), f"cell {q} keeps its value iff selected", "copy data")
+            for nm, blank in (("bb", False), ("bi", -2147483648)):
+                kid = [k_ for k_ in new.children if getattr(k_, "name", None) == nm]
+                cx.prove(len(kid) == 1 and shape(kid[0].values) == (n,), f"copied {nm} data has one value per cell", "copy data")
+                if len(kid) == 1 and shape(kid[0].values) == (n,):
+                    vv = elems(kid[0].values)
+                    for q in range(n):
+                        orig = True if nm == "bb" else q + 50
+                        if vv[q] == orig:
+                            cx.prove(qual[q], f"{nm}: cell {q} keeps its value only when selected", "copy data (other kinds)")
+                        else:
+                            cx.prove(And(Not(qual[q]), vv[q] == blank), f"{nm}: cell {q} outside the selection holds the no-data code",
+                                     "copy data (other kinds)")
             return "ok"
 
 
